@@ -229,6 +229,21 @@ CHECKS["C10"] = dict(
          "dependency clause is a static fact fed to the spec, not behaviour explored by TLC.",
     ref="4 C10", technique="TLA+ effect alphabet (TLC) + system-call trace validation of the real binary")
 
+CHECKS["C04"] = dict(
+    text="What Harper adds on top of the third-party grammars - byte->char conversion of comment node ranges, span "
+         "coalescing, white-space merging, the ignore-marker filter - is specified over files of code / comment / "
+         "ignored-comment / white-space segments with characters of 1-4 bytes (spec/SourceFile.tla); TLC checks that "
+         "exactly the characters of ordinary comments are offered. On the real code, files are rendered from a segment "
+         "grammar for all 22 comment languages, Markdown (both link options), HTML, Typst, Literate Haskell and "
+         "git-commit buffers, with the ground truth recorded while rendering; TLC validates every Src event "
+         "(spec/trace/Trace_SourceFile.tla): every prose word is a Word token with identical text at its true offset, "
+         "no word-like token lies outside the prose, none of the marker words placed in code, string literals, URLs, "
+         "inline code, fences, math, tags or ignore-marked comments reaches the rules.",
+    note="Trusted: TLC; the generators' templates (valid per grammar, accepted by the unchanged tree). Third-party "
+         "parsers are black boxes; files outside the segment grammar (macros, heredocs, nested comment syntaxes) are not "
+         "covered.",
+    ref="4 C04", technique="TLA+ model checking (TLC) + trace validation against generated ground truth")
+
 NOT_YET = {}
 
 
